@@ -56,6 +56,8 @@ def instances_for(prop, tier, seed):
         add(script='none', k=k, budget={'change': 2, 'partial': 1, 'tick': 1})
         if prop == 'C04':
             add(script='one', k=k + 1, budget={'change': 1, 'faults': ['write_error']})
+            # a backlog of undelivered notifications (the consumer is slow): 70 pending changes answered in one idle reply
+            add(script='one', prefix='backlog', k=2, budget={}, backlog=70 if q else 130)
         if not q:
             add(script='listok', k=k, budget={'change': 1, 'tick': 1})
             add(script='mixed', prefix='after_reply', k=k, budget={'cancel': 1, 'tick': 1})
@@ -96,7 +98,7 @@ def run_scenario(I, P, pl):
     # prefix: reach a loop state deterministically
     S.poll_loop()                       # writes the initial idle
     pre = pl['prefix']
-    if pre in ('after_reply', 'inflight', 'inflight_partial', 'inflight_partial2'):
+    if pre in ('after_reply', 'inflight', 'inflight_partial', 'inflight_partial2', 'backlog'):
         S.issue(0)
         S.poll_loop()                   # noidle written
         S.deliver()                     # OK of the noidle
@@ -105,6 +107,9 @@ def run_scenario(I, P, pl):
             while S.undelivered():
                 S.deliver()
             S.poll_loop(); S.poll_caller(0)
+        elif pre == 'backlog':
+            for n in range(pl.get('backlog', 70)):
+                S.change(b'sub%d' % n)
         elif pre == 'inflight_partial':
             S.deliver()                 # first line of the reply only
             S.poll_loop()
